@@ -292,6 +292,45 @@ def _c13(tier="quick", seed=0):
     return _attach(flow.no_inplace_update_of_borrowed_arrays("results:Result.get_coverage"), "inplace-on-borrowed", _replay_coverage_report)
 
 
+def _c18_loops(tier="quick", seed=0):
+    """the validation passes of a framework apply each per-item rule to EVERY item: no rule reads the variable of a loop that has
+    already finished (which would check the last item only)"""
+    from pyvc import source
+
+    out = []
+    m = source.load("framework")
+    for (cls, name) in sorted(m.methods):
+        if cls == "ProjectFramework" and (name.startswith("_validate") or name.startswith("_sanitize") or name == "_process_transitions"):
+            out += flow.loop_variables_not_read_after_loop("framework:%s.%s" % (cls, name))
+    return out
+
+
+def _replay_units_mismatch():
+    """a databook object whose units for one quantity differ from the framework's: building a ParameterSet must fail with the
+    intended message, not with an AttributeError raised while that message is being built"""
+    import atomica as at
+
+    at_, P = _udt()
+    D = P.data
+    name = [k for k in D.tdve.keys() if k in P.framework.pars.index][0]
+    pop = list(D.pops.keys())[0]
+    D.tdve[name].ts[pop].units = "something else"
+    pre = dict(project="udt", quantity=name, population=pop, units_in_databook="something else", units_in_framework=P.framework.get_databook_units(name))
+    try:
+        at.ParameterSet(P.framework, D, "x")
+    except AttributeError as e:
+        return dict(verdict="violates", detail="building the ParameterSet raised AttributeError (%s) instead of the error that names the unit mismatch" % e, prestate=pre)
+    except Exception as e:
+        return dict(verdict="holds", detail="refused with: %s" % str(e)[:160], prestate=pre)
+    return dict(verdict="violates", detail="the mismatching units were accepted silently", prestate=pre)
+
+
+def _c18_parset(tier="quick", seed=0):
+    return _attach(flow.no_attribute_of_plain_container("parameters:ParameterSet.__init__"), "attribute-of-plain", _replay_units_mismatch)
+
+
+_c18_prev = EXTRA_CHECKS.get("C18")
+EXTRA_CHECKS["C18"] = (lambda tier="quick", seed=0: (_c18_prev(tier, seed) if _c18_prev else []) + _c18_loops(tier, seed) + _c18_parset(tier, seed))
 EXTRA_CHECKS["C14"] = _c14
 _c13_prev = EXTRA_CHECKS.get("C13")
 EXTRA_CHECKS["C13"] = (lambda tier="quick", seed=0: (_c13_prev(tier, seed) if _c13_prev else []) + _c13(tier, seed))
